@@ -99,7 +99,8 @@ class Explorer:
             if c.target:
                 self.by_target[c.target] = c
         self.invariants = invariants
-        self.types = TypeParser(index, ['fpy2.number', 'fpy2.utils', 'fpy2', 'fpy2.ast', 'fpy2.analysis'])
+        self.types = TypeParser(index, ['fpy2.number', 'fpy2.utils', 'fpy2', 'fpy2.ast', 'fpy2.analysis',
+                                        'fpy2.transform.path', 'fpy2.transform.cursor', 'fpy2.transform.error'])
         self.intrinsics = Intrinsics(self)
         self.global_cache = {}
         self.tags = Tags()
